@@ -391,8 +391,19 @@ fn run_unobservable(env: &Env, stats: &mut Stats) -> Vec<Violation> {
         let mut ch = Chooser::new(c);
         // an int-valued read of `nn` (no NOTIFY, not CONSTANT) through a generated receiver, inside a generated context
         let recv = *ch.pick(&["a0", "a1", "a0.p0", "a1.p1.p0", "(a0.b0 ? a0 : a1)", "(a1.p0 as VSrc)", "a2", "(a2 as VSrc)"]);
+        // one case in three reads the notify-less object pointer `pn` instead of the notify-less int `nn`
+        let pointer = ch.chance(1, 3);
         let read = format!("{recv}.nn");
-        let (prop, expr) = match ch.below(7) {
+        let (prop, expr) = if pointer {
+            ch.label("unobservable-pointer-property");
+            match ch.below(5) {
+                0 => ("ti", format!("{recv}.pn.i0")),
+                1 => ("tb", format!("{recv}.pn != null")),
+                2 => ("tp", format!("{recv}.pn")),
+                3 => ("ti", format!("{recv}.pn !== null ? {recv}.pn.i0 : 0")),
+                _ => ("ts", format!("{{ let o = {recv}.pn; return o.s0 }}")),
+            }
+        } else { match ch.below(7) {
             0 => ("ti", read.clone()),
             1 => ("ti", format!("{read} + a0.i0")),
             2 => ("tb", format!("{read} > 3")),
@@ -400,7 +411,7 @@ fn run_unobservable(env: &Env, stats: &mut Stats) -> Vec<Violation> {
             4 => ("ti", format!("a0.b0 ? {read} : 0")),
             5 => ("ti", format!("{{ let o = {recv}; if (a0.b1) {{ return o.nn }} return 1 }}")),
             _ => ("ti", format!("{{ switch (a0.i0) {{ case 1: return {read}; default: return 2 }} }}")),
-        };
+        } };
         let binding = format!("{prop}: {expr}");
         let qml = format!("import qmluic.QtWidgets\nQWidget {{\n    VSrc {{ id: a0 }}\n    VSrc {{ id: a1 }}\n    VSub {{ id: a2 }}\n    VDst {{\n        id: t0\n        {binding}\n    }}\n}}\n");
         let t = translate(&qml, "T", Mode::Generate);
@@ -413,6 +424,9 @@ fn run_unobservable(env: &Env, stats: &mut Stats) -> Vec<Violation> {
             let why = if t.accepted() { "accepted (a stale binding was generated)".to_owned() } else if let Some(p) = &t.panic { format!("panic: {p}") } else { "no `unobservable property` error inside the binding".to_owned() };
             out.push(Violation { failure: Failure { key: "c02-unobservable-read-not-rejected".into(), what: format!("binding `{binding}` reads nn (no NOTIFY, not CONSTANT): {why}"), detail: json!({"qml": qml, "diagnostics": t.diag_summary()}) }, choices: Some(c.clone()), part: "unobservable".into() });
             break;
+        }
+        if pointer {
+            continue;
         }
         // the constant property next to it needs no connection and must be accepted
         let ok_qml = qml.replace(".nn", ".ci");
@@ -458,7 +472,7 @@ pub fn run(env: &Env, known: &Known, started: Instant, replayed: u64, replay_vio
     rr.violations.append(&mut un);
     let ev = Evidence {
         env, pid: PID, level: "exploration",
-        rule: "documents of 4-15 generated bindings whose generator favours pointer chains (a.p0.p1.x, one to three links), objects held in locals and ternary-selected objects over 2-4 source objects (VSrc/VSub/VSub2) forming a pointer graph; notify signals with and without the value as argument and an overloaded notify name occur. Each document is compiled against the API model and driven by a history of 8-40 operations applied after setup(): set a property that some binding currently reads (values chosen to flip branches), re-point a pointer property that is read (to another object, to itself, to null), change properties of objects that are not read now (stale observers), set the current value again, emit a notify signal without a change. After setup() and after every operation every bound target printed by the compiled code must equal the reference interpreter's value of its source expression in the current model state (the model mirrors the mock: setters notify only on change). Operations after which some binding would be undefined (null dereference etc.) are dropped and counted. Static oracle on every document: in each eval body every X->getter() of a non-constant property is covered by a connect(X, notify) in the binding's setup function when X is a named object (or a local copying one in the same block), else by an observer block on X with that notify signal earlier in the same basic block. Third part: bindings reading the property nn (no NOTIFY, not CONSTANT) through eight receiver shapes and seven contexts must be rejected with an `unobservable property` error inside the binding, while the same binding reading the CONSTANT property ci is accepted. Non-trivial history = one in which a pointer property was re-pointed and later a leaf property that became live through that re-point was changed, or whose document reads through a local or a ternary-selected object; distinct by (document, history).",
+        rule: "documents of 4-15 generated bindings whose generator favours pointer chains (a.p0.p1.x, one to three links), objects held in locals and ternary-selected objects over 2-4 source objects (VSrc/VSub/VSub2) forming a pointer graph; notify signals with and without the value as argument and an overloaded notify name occur. Each document is compiled against the API model and driven by a history of 8-40 operations applied after setup(): set a property that some binding currently reads (values chosen to flip branches), re-point a pointer property that is read (to another object, to itself, to null), change properties of objects that are not read now (stale observers), set the current value again, emit a notify signal without a change. After setup() and after every operation every bound target printed by the compiled code must equal the reference interpreter's value of its source expression in the current model state (the model mirrors the mock: setters notify only on change). Operations after which some binding would be undefined (null dereference etc.) are dropped and counted. Static oracle on every document: in each eval body every X->getter() of a non-constant property is covered by a connect(X, notify) in the binding's setup function when X is a named object (or a local copying one in the same block), else by an observer block on X with that notify signal earlier in the same basic block. Third part: bindings reading the property nn (int, no NOTIFY, not CONSTANT) or pn (object pointer, no NOTIFY, not CONSTANT) through eight receiver shapes and seven (five) contexts must be rejected with an `unobservable property` error inside the binding, while the same binding reading the CONSTANT property ci is accepted. Non-trivial history = one in which a pointer property was re-pointed and later a leaf property that became live through that re-point was changed, or whose document reads through a local or a ternary-selected object; distinct by (document, history).",
         assumptions: vec![
             "the API model's setters store and notify only on change; the C++ side sees nothing but setter and signal calls".into(),
             "direct (same-thread) connections: slots run synchronously in connection order".into(),
